@@ -30,8 +30,9 @@ def npieces(plen, files):
     return (t + plen - 1) // plen
 
 
-def header(plen, files, done, seed):
-    return "plen=%d files=%s done=%s seed=%d" % (plen, ",".join(map(str, files)), done, seed)
+def header(plen, files, done, seed, dslots=0):
+    h = "plen=%d files=%s done=%s seed=%d" % (plen, ",".join(map(str, files)), done, seed)
+    return h + (" dslots=%d" % dslots if dslots else "")
 
 
 def rand_bits(r, n, kind):
@@ -53,14 +54,15 @@ def rand_bits(r, n, kind):
 KINDS = ["full", "full", "none", "half", "otherhalf", "low", "high", "rand", "rand"]
 
 
-def random_case(r, stats, nops=None, big_time=True):
+def random_case(r, stats, nops=None, big_time=True, slots=False):
     plen, files = r.choice(LAYOUTS)
     n = npieces(plen, files)
     done = "".join("1" if r.random() < 0.12 else "0" for _ in range(n)) if r.random() < 0.5 else "0" * n
     if "0" not in done:
         done = "0" + done[1:]
     seed = r.randrange(1, 1 << 16)
-    npeers = r.choice([1, 1, 2, 2, 3, 4])
+    npeers = r.choice([1, 1, 2, 2, 3, 4]) if not slots else r.choice([2, 3, 3, 4, 4])
+    dslots = r.choice([1, 1, 2]) if slots else 0
     ops = []
     joined = set()
     # priorities first in some cases
@@ -112,8 +114,31 @@ def random_case(r, stats, nops=None, big_time=True):
             else:
                 ops.append("A:%d" % r.choice([3, 130, 250]))
                 ops.append("PE:%d" % p)
-        elif x < 0.95:
+        elif x < 0.93:
             ops.append("W:%d:%d" % (r.randrange(nf), r.choice([0, 1, 1, 2])))
+        elif x < 0.97:
+            # message crossings: p's next small messages are held back while the swarm goes on, then arrive in one segment;
+            # a PIECE crossing the client's CANCEL; a PIECE for a request voided by p's own CHOKE
+            y = r.random()
+            if y < 0.5:
+                k = r.choice([2, 2, 3, 4])
+                ops.append("B:%d:%d" % (p, k))
+                pool = ["K:%d" % p, "U:%d" % p, "H:%d:%d" % (p, r.randrange(n)), "H:%d:%d" % (p, r.randrange(n))]
+                q = r.randrange(npeers)
+                for j in range(k + 1):
+                    ops.append(r.choice(pool))
+                    if r.random() < 0.5:
+                        ops.append(r.choice(["P:%d:0" % q, "A:1", "U:%d" % q, "P:%d:1" % p]))
+                stats["batches"] = stats.get("batches", 0) + 1
+            elif y < 0.75:
+                ops.append("PC:%d:%d" % (p, r.choice([0, 1])))
+            else:
+                ops.append("K:%d" % p)
+                ops.append("PK:%d:%d" % (p, r.choice([0, 1])))
+                if r.random() < 0.5:
+                    ops.append("A:7")
+                    ops.append("PK:%d:0" % p)
+                ops.append("U:%d" % p)
         else:
             ops.append("J:%d:%s" % (p, rand_bits(r, n, r.choice(KINDS))))
     # completion phase with one honest peer: everything wanted must complete
@@ -121,11 +146,19 @@ def random_case(r, stats, nops=None, big_time=True):
         q = r.randrange(npeers)
         ops.append("PE:%d" % q)
         ops.append("J:%d:%s" % (q, "1" * n))
+        if slots:
+            # with limited download slots which queued connection gets the slot is choke_queue's rotation policy
+            # (property C11); the completion claim of C04 is made with the other connections gone
+            for o in range(npeers):
+                if o != q:
+                    ops.append("X:%d" % o)
         ops.append("Q:%d" % q)
         stats["with_completion"] = stats.get("with_completion", 0) + 1
     stats["peers_%d" % npeers] = stats.get("peers_%d" % npeers, 0) + 1
     stats["pieces_le5" if n <= 5 else "pieces_gt5"] = stats.get("pieces_le5" if n <= 5 else "pieces_gt5", 0) + 1
-    return header(plen, files, done, seed) + " | " + " ".join(ops)
+    if slots:
+        stats["limited_slots"] = stats.get("limited_slots", 0) + 1
+    return header(plen, files, done, seed, dslots) + " | " + " ".join(ops)
 
 
 def hand_cases():
@@ -181,6 +214,15 @@ def hand_cases():
     # a piece started by a leecher whose requests are voided (leaves / chokes); only seeders remain
     H.append(h("J:0:1111100000 U:0 P:0:0 X:0 J:1:1111111111 U:1 A:31 Q:1"))
     H.append(h("J:0:1111100000 J:1:1111111111 U:0 U:1 P:0:0 K:0 A:8 A:31 Q:1"))
+    # limited download slots: one slot, three seeders
+    H.append(header(32768, [100000, 200000], "0" * 10, 3, 1) + " | J:0:1111111111 J:1:1111111111 J:2:1111111111 U:0 U:1 U:2 A:31 P:0:0 P:1:0 P:2:0 A:31 A:31 P:0:0 P:1:0 P:2:0 K:0 A:31 A:31 P:1:0 P:2:0 Q:2")
+    H.append(header(32768, [100000, 200000], "0" * 10, 4, 2) + " | J:0:1111111111 J:1:1111111111 J:2:1111111111 J:3:1111111111 U:0 U:1 U:2 U:3 A:31 P:0:0 P:3:0 A:61 P:1:0 P:2:0 X:0 A:31 A:31 Q:3")
+    # message crossings
+    H.append(h("J:0:1111111111 U:0 B:0:2 K:0 U:0 A:1 P:0:0 A:7 P:0:0 A:31 Q:0"))             # CHOKE+UNCHOKE in one segment
+    H.append(h("J:0:1111111111 U:0 P:0:0 K:0 PK:0:0 PK:0:0 A:7 U:0 A:31 Q:0"))                # PIECEs after the peer's CHOKE
+    H.append(h("J:0:- B:0:3 U:0 H:0:3 H:0:4 A:1 P:0:0 A:31 Q:0"))                              # UNCHOKE racing with HAVEs
+    H.append(h("J:0:111 J:1:111 U:0 U:1 A:31 P:0:0 PC:1:0 P:1:0 PC:0:0 A:31 Q:1", small))       # PIECE crossing our CANCEL (endgame)
+    H.append(h("J:0:1111100000 J:1:1111111111 U:0 U:1 B:0:1 P:1:0 K:0 P:1:0 A:1 P:1:0 A:8 Q:1"))  # requests sent while p0's CHOKE is in flight
     # four peers
     H.append(h("J:0:1111100000 J:1:0000011111 J:2:1111111111 J:3:- U:0 U:1 U:2 U:3 P:0:0 P:1:0 P:2:0 K:2 P:0:0 X:1 A:8 U:2 H:3:2 A:31 Q:2"))
     return H
@@ -208,7 +250,11 @@ def gen(seed, tier):
     # short-time stream: no long silences, many ops (choke flapping / out-of-order heavy)
     for _ in range(n // 4):
         cases.append(random_case(r, stats, nops=r.choice([40, 120]), big_time=False))
-    stats["random"] = n + n // 4
+    # limited download slots (ResourceManager::max_download_unchoked 1 or 2) with 2-4 peers: the client's own choke
+    # queue decides who may be asked; more time steps so that its balance tick runs
+    for _ in range(n // 4):
+        cases.append(random_case(r, stats, nops=r.choice([20, 40, 80]), slots=True))
+    stats["random"] = n + n // 4 + n // 4
     return cases, stats
 
 
@@ -248,6 +294,10 @@ def classify_stuck(out):
     if g("int") == 1 and g("unch") == 1 and g("dq") == 0 and g("nq") == 1:
         return "no-completion", ("update_interested (update_priorities) re-marked interest while the peer had the client "
                                  "unchoked, without queueing the connection in the download choke queue: " + m.group(1))
+    if g("int") == 0 and g("unch") == 1 and g("dq") == 0 and g("qcu") == 1:
+        return "no-completion-queue-choked-unqueued", ("the client's own download choke queue choked the connection (it stays queued but is marked "
+                                                       "not interested), the peer's CHOKE then removed it from the queue and its UNCHOKE is ignored "
+                                                       "because the client is 'not interested': nothing queues it again: " + m.group(1))
     if g("int") == 0 and g("unch") == 1 and g("miss") > 0 and g("listed") == g("miss"):
         return "no-completion-have-listed", ("the peer announced (HAVE) only pieces that are already listed in the transfer "
                                              "list; ChunkSelector::received_have_chunk ignores them, the client never "
